@@ -98,6 +98,18 @@ CHECKS["C17"] = dict(
          "walk (a non-recursive rewrite makes the anchor vanish: exit 2, human review).",
     ref="DESIGN.md §3 C17")
 
+CHECKS["C15"] = dict(
+    technique="static analysis: dispatch-table extraction + cross-unit prototype agreement; cursor-skeleton abstract execution of every kernel over all counts (buffer contents unknown)",
+    text="Structural clauses: all 19 dispatch slots get their scalar implementation before any override; overrides "
+         "in the order SSE4.2 < AVX2 < AVX-512, each under its capability flag, each kernel from the unit built for "
+         "that ISA and named for its slot; wrappers call their own slot with their own parameters; extern kernel "
+         "prototypes equal the definitions. Extents: for each of the ~80 kernels (three x86 units + scalar "
+         "fallbacks) the cursor arithmetic is executed abstractly for every count 0..N (N = 70/140/280 by ISA): "
+         "every load/store (masked forms by mask population) lies inside the contract extent of its buffer and "
+         "output kernels write their whole output. Not decided: output equality with the scalar definition; ARM "
+         "kernels (not in this build); adequacy of has_avx512f for the BW/VL encodings (observation in DESIGN.md).",
+    ref="DESIGN.md §3 C15")
+
 NOT_APPLICABLE = {
     "C10": "conformance of Snappy/LZ4 streams to the external grammars is a statement about emitted/accepted byte values; no structural clause beyond the decoder bounds already decided under C08 (DESIGN.md §6)",
     "C12": "conformance of encoder output to the Parquet encoding specification needs an independent codec as value oracle; no sound structural clause (DESIGN.md §6)",
